@@ -51,7 +51,14 @@ def o172(ctx):
         ctx.touched(q)
         it = Interp(ctx.prog, summaries={"cryocat.starfileio.Starfile.read": star_summary},
                     assume=assume_map({"'rlnPhaseShift' in gctf_df.columns": phase}))
-        r = it.run(q, [K("ctf.star")], {})
+        from sa.values import ColumnOrderUnknown
+        try:
+            r = it.run(q, [K("ctf.star")], {})
+        except ColumnOrderUnknown as e:
+            ctx.count(1)
+            ctx.finding(q, e.node, f"{e}: the Angstrom -> micrometre conversion must address rlnDefocusU / rlnDefocusV by name (or after a "
+                        "selection that fixes the column order)", e.node, m)
+            continue
         if not isinstance(r.ret, Frame):
             raise Unsupported("gctf_read does not return a table", fn)
         U, V = sym("star:rlnDefocusU"), sym("star:rlnDefocusV")
